@@ -24,6 +24,12 @@ Theorem C15_no_further_frame : forall s s1 evs s2,
 Proof. exact no_frame_after_error. Qed.
 Print Assumptions C15_no_further_frame.
 
+(* the error is reported once: after it a second report is refused in every continuation *)
+Theorem C15_error_reported_once : forall s s1 evs s2,
+  step s CT_RENDERERR = Some s1 -> run s1 evs = Some s2 -> step s2 CT_RENDERERR = None.
+Proof. exact error_reported_once. Qed.
+Print Assumptions C15_error_reported_once.
+
 Theorem C15_pending_only_between_cycles : forall p a d evs s, run (init_cst p a d) evs = Some s -> PendIdle s.
 Proof.
   intros p a d evs. assert (G : forall s0 s, PendIdle s0 -> run s0 evs = Some s -> PendIdle s).
